@@ -412,6 +412,8 @@ class AsyncInotifyWrapper:
                             if sub_path.is_file():
                                 self.change_queue.put_nowait((Change.UPDATED, sub_path))
                             elif sub_path.is_dir():
+                                # The same holds for directories, which may match a pattern.
+                                self.change_queue.put_nowait((Change.UPDATED, sub_path / ""))
                                 paths.append(sub_path)
             else:
                 self.change_queue.put_nowait((change, path))
